@@ -29,39 +29,33 @@ var routeKinds = map[string]struct{ kind, reason string }{
 	"defaultPathHandler":                 {"public", "landing page / redirect to profile"},
 }
 
-// Reviewed reference of the mask every checkAuth caller passes (R-C06-2). WEBUI = getRequiredWebUIAuthLevel().
-var reviewedMasks = map[string]string{
-	"certGenHandler":                        "ANY",
-	"VIPAuthHandler":                        "ANY",
-	"vipPushStartHandler":                   "ANY",
-	"VIPPollCheckHandler":                   "ANY",
-	"u2fSignRequest":                        "ANY",
-	"u2fSignResponse":                       "ANY",
-	"webauthnAuthLogin":                     "ANY",
-	"webauthnAuthFinish":                    "ANY",
-	"BootstrapOtpAuthHandler":               "ANY",
-	"oktaPushStartHandler":                  "ANY",
-	"oktaPollCheckHandler":                  "ANY",
-	"Okta2FAuthHandler":                     "ANY",
-	"TOTPAuthHandler":                       "ANY",
-	"verifyTOTPHandler":                     "WEBUI",
-	"validateNewTOTP":                       "WEBUI",
-	"GenerateNewTOTP":                       "WEBUI",
-	"totpTokenManagerHandler":               "WEBUI",
-	"u2fRegisterRequest":                    "WEBUI",
-	"u2fRegisterResponse":                   "WEBUI",
-	"webauthnBeginRegistration":             "WEBUI",
-	"webauthnFinishRegistration":            "WEBUI",
-	"profileHandler":                        "WEBUI",
-	"u2fTokenManagerHandler":                "WEBUI",
-	"SendAuthDocumentHandler":               "WEBUI",
-	"ShowAuthTokenHandler":                  "WEBUI",
-	"idpOpenIDCAuthorizationHandler":        "WEBUI",
-	"sendFailureToClientIfNotAdminUserOrCA": "WEBUI",
-	"sendFailureToClientIfNonAdmin":         "WEBUI|AuthTypeKeymasterX509",
-	"roleRequetingCertGenHandler":           "WEBUI|AuthTypeKeymasterX509",
-	"refreshRoleRequestingCertGenHandler":   "AuthTypeIPCertificate",
-	"commonTOTPPostHandler":                 "PARAM",
+// reviewedRouteMasks: per service route handler, the admission masks with which checkAuth is reached from it
+// (whatever helpers the calls go through; a parameter is resolved through the callers on the route, a mask
+// helper through its return expression). WEBUI = getRequiredWebUIAuthLevel(), the default for every handler not
+// listed: a handler that takes certificates or accepts any level is listed with the reason.
+var reviewedRouteMasks = map[string]string{
+	// second-factor and certificate endpoints: any established level, the handler itself decides what it adds
+	"certGenHandler":          "ANY",
+	"BootstrapOtpAuthHandler": "ANY",
+	"Okta2FAuthHandler":       "ANY",
+	"TOTPAuthHandler":         "ANY",
+	"VIPAuthHandler":          "ANY",
+	"VIPPollCheckHandler":     "ANY",
+	"vipPushStartHandler":     "ANY",
+	"oktaPollCheckHandler":    "ANY",
+	"oktaPushStartHandler":    "ANY",
+	"u2fSignRequest":          "ANY",
+	"u2fSignResponse":         "ANY",
+	"webauthnAuthFinish":      "ANY",
+	"webauthnAuthLogin":       "ANY",
+	// administration: web-UI level or a keymaster client certificate
+	"addUserHandler":              "WEBUI|AuthTypeKeymasterX509",
+	"deleteUserHandler":           "WEBUI|AuthTypeKeymasterX509",
+	"generateBootstrapOTP":        "WEBUI|AuthTypeKeymasterX509",
+	"usersHandler":                "WEBUI|AuthTypeKeymasterX509",
+	"roleRequetingCertGenHandler": "WEBUI|AuthTypeKeymasterX509",
+	// refresh of a role-requesting certificate: the IP-restricted certificate itself
+	"refreshRoleRequestingCertGenHandler": "AuthTypeIPCertificate",
 }
 
 func init() { km.Register("C06", checkC06) }
@@ -319,48 +313,97 @@ func checkMasks(c *km.Ctx, s *km.Sem, checkAuth *ssa.Function) {
 		c.R.AnchorLost("R-C06-2", "AuthType* constants of cmd/keymasterd")
 		return
 	}
-	for _, cs := range c.G.Callers[checkAuth] {
-		ci, ok := cs.Instr.(ssa.CallInstruction)
-		if !ok {
-			continue
+	// mask expression of a value, looking through a parameter (all callers inside `within`) and through a mask
+	// helper (its return expression)
+	var exprs func(v ssa.Value, fn *ssa.Function, within map[*ssa.Function]bool, depth int) []string
+	exprs = func(v ssa.Value, fn *ssa.Function, within map[*ssa.Function]bool, depth int) []string {
+		e := maskExpr(c, v, consts)
+		if depth > 3 {
+			return []string{e}
 		}
-		args := km.CallArgs(ci.Common())
-		if len(args) < 4 {
-			continue
-		}
-		caller := cs.Caller
-		got := maskExpr(c, args[3], consts)
-		want, known := reviewedMasks[caller.Name()]
-		if got == "PARAM" {
-			// resolve through the callers of the wrapper: each is checked against its own entry
+		if e == "PARAM" {
+			p := km.Unwrap(v).(*ssa.Parameter)
 			idx := -1
-			for i, p := range caller.Params {
-				if p == km.Unwrap(args[3]) {
+			for i, q := range fn.Params {
+				if q == p {
 					idx = i
 				}
 			}
-			for _, cs2 := range c.G.Callers[caller] {
-				ci2, ok := cs2.Instr.(ssa.CallInstruction)
+			var out []string
+			for _, cs := range c.G.Callers[fn] {
+				if !within[cs.Caller] {
+					continue
+				}
+				ci, ok := cs.Instr.(ssa.CallInstruction)
 				if !ok || idx < 0 {
 					continue
 				}
-				a2 := km.CallArgs(ci2.Common())
-				g2 := maskExpr(c, a2[idx], consts)
-				w2, k2 := reviewedMasks[cs2.Caller.Name()]
-				req := "mask of " + cs2.Caller.Name() + " (through " + caller.Name() + ") = " + w2
-				if !k2 {
-					req = "caller not in the reviewed mask table: a new credential consumer must be reviewed (default WEBUI)"
-					w2 = "WEBUI"
+				a := km.CallArgs(ci.Common())
+				for _, x := range exprs(a[idx], cs.Caller, within, depth+1) {
+					out = appendUniq(out, x)
 				}
-				c.R.Add("R-C06-2", km.FuncName(cs2.Caller), "checkAuth mask via "+caller.Name(), posOf(c, cs2.Instr), req, g2, g2 == w2)
+			}
+			if len(out) == 0 {
+				return []string{"PARAM"}
+			}
+			return out
+		}
+		if strings.HasPrefix(e, "call:") {
+			if cl, ok := km.Unwrap(v).(*ssa.Call); ok {
+				if g := km.StaticCallee(cl.Common()); g != nil && g.Blocks != nil && c.InModule(g) {
+					var out []string
+					for _, rc := range s.RetCases(g) {
+						for _, x := range exprs(rc.Results[0], g, within, depth+1) {
+							out = appendUniq(out, x)
+						}
+					}
+					if len(out) > 0 {
+						return out
+					}
+				}
 			}
 		}
-		req := "mask of " + caller.Name() + " = " + want
+		return []string{e}
+	}
+	// per route: the masks with which checkAuth can be reached from the handler
+	seen := map[*ssa.Function]bool{}
+	for _, rt := range c.Routes {
+		if rt.Mux != "service" || rt.Handler == nil || seen[rt.Handler] || !strings.Contains(km.FuncFull(rt.Handler), KMD) {
+			continue
+		}
+		seen[rt.Handler] = true
+		reach := reachableFrom(c, map[*ssa.Function]bool{checkAuth: true}, rt.Handler)
+		var masks []string
+		var pos string
+		for _, fn := range sortedFuncs(reach) {
+			for _, ci := range km.CallsIn(fn) {
+				if km.StaticCallee(ci.Common()) != checkAuth {
+					continue
+				}
+				args := km.CallArgs(ci.Common())
+				if len(args) < 4 {
+					continue
+				}
+				if pos == "" {
+					pos = posOf(c, ci)
+				}
+				for _, x := range exprs(args[3], fn, reach, 0) {
+					masks = appendUniq(masks, x)
+				}
+			}
+		}
+		if len(masks) == 0 {
+			continue
+		}
+		sort.Strings(masks)
+		got := strings.Join(masks, " , ")
+		want, known := reviewedRouteMasks[rt.Handler.Name()]
+		req := "masks reachable from " + rt.Handler.Name() + " = " + want
 		if !known {
-			req = "caller not in the reviewed mask table: a new credential consumer must be reviewed (default WEBUI)"
+			req = "handler not in the reviewed mask table: a new credential consumer must be reviewed (default WEBUI)"
 			want = "WEBUI"
 		}
-		c.R.Add("R-C06-2", km.FuncName(caller), "checkAuth mask", posOf(c, cs.Instr), req, got, got == want)
+		c.R.Add("R-C06-2", km.FuncName(rt.Handler), "checkAuth masks reachable from the route", pos, req, got, got == want)
 	}
 }
 
